@@ -892,6 +892,19 @@ def m0_js():
             m.method("Js", "rt_%s" % sd.name.lower(), None, [("s", StructT(sd.name, borrowed=True))], StructT(sd.name, borrowed=True), ret_from=PassThrough("s"))
         else:
             m.method("Js", "rt_%s" % sd.name.lower(), None, [("s", StructT(sd.name))], StructT(sd.name))
+    # fallible / optional returns: the receive buffer must fit the DiplomatResult record (payload union + is_ok)
+    m.add(StructDef("JTri", [("a", P("i32")), ("b", P("i32")), ("c", P("i32"))]))
+    m.method("Js", "rt_jtri", None, [("s", StructT("JTri"))], StructT("JTri"))
+    m.method("Js", "res_u64_tri", None, [], Res(P("u64"), StructT("JTri")))
+    m.method("Js", "res_unit_inner", None, [], Res(None, StructT("JInner")))
+    m.method("Js", "res_u8_pad", None, [], Res(P("u8"), StructT("JPad")))
+    m.method("Js", "res_pad_unit", None, [], Res(StructT("JPad"), None))
+    m.method("Js", "res_pair_inner", None, [], Res(StructT("JPair"), StructT("JInner")))
+    m.method("Js", "res_unit_en", None, [], Res(None, EnumT("Je")))
+    m.method("Js", "res_quad_en", None, [], Res(StructT("JQuad"), EnumT("Je")))
+    m.method("Js", "opt_pad", None, [], Opt(StructT("JPad")))
+    m.method("Js", "opt_u64", None, [], Opt(P("u64")))
+    m.method("Js", "opt_celsius", None, [], Opt(StructT("JCelsius")))
     m.method("Js", "new", None, [], OpaqueBox("Js"))
     return m
 
